@@ -79,30 +79,40 @@ def model_outcome(o):
     return {"err": {"kind": o[1], "line": ln}}
 
 
-def run_model(ctx, items):
+def run_model(ctx, items, nshard=None, timeout=400, depth=0):
     """items: list of coq program texts -> list of (transcript texts, outcome) or None."""
-    nshard = sv.NPROC
-    files = []
+    nshard = nshard or sv.NPROC
+    files, parts = [], []
     for s in range(nshard):
-        part = items[s::nshard]
-        if not part:
+        idx = list(range(s, len(items), nshard))
+        if not idx:
             continue
         text = ("From Coq Require Import ZArith String List.\nFrom SV Require Import Core.Syntax Core.Values Core.Sem.\n"
                 "Import ListNotations.\nOpen Scope string_scope.\nOpen Scope Z_scope.\n")
-        for p in part:
-            text += "Eval vm_compute in (run_program %d %s).\n" % (FUEL, p)
-        files.append(("prog_%d" % s, text))
-    outs = sv.coq_eval_files(ctx, files, timeout=400)
+        for i in idx:
+            text += "Eval vm_compute in (run_program %d %s).\n" % (FUEL, items[i])
+        files.append(("prog_%d_%d" % (depth, s), text))
+        parts.append(idx)
+    outs = sv.coq_eval_files(ctx, files, timeout=timeout)
     res = [None] * len(items)
     log = ""
-    for s, (rc, out) in enumerate(outs):
+    failed = []
+    for idx, (rc, out) in zip(parts, outs):
         vals = sv.coq_values(out)
-        part_n = len(items[s::nshard])
-        if rc != 0 or len(vals) != part_n:
+        if rc != 0 or len(vals) != len(idx):
             log += out[-400:]
-        for j, v in enumerate(vals[:part_n]):
+            failed += idx[len(vals):] if rc != 0 and len(vals) < len(idx) else idx
+        for i, v in zip(idx, vals[:len(idx)]):
             tr, oc = v
-            res[s + j * nshard] = ([obs_text(x) for x in tr], model_outcome(oc))
+            res[i] = ([obs_text(x) for x in tr], model_outcome(oc))
+    failed = [i for i in failed if res[i] is None]
+    if failed and depth < 2:
+        # a shard died (time/memory limit): re-run its unevaluated programs in smaller files with a longer limit
+        sub, sublog = run_model(ctx, [items[i] for i in failed], nshard=max(1, min(len(failed), sv.NPROC)),
+                                timeout=timeout * 2, depth=depth + 1)
+        for i, r in zip(failed, sub):
+            res[i] = r
+        log += sublog
     return res, log
 
 
@@ -194,7 +204,15 @@ def compare(ctx, entries):
                 "impl next=%s outcome=%s | reference next=%s outcome=%s | cpython=%s"
                 % (e["id"], e["variant"], k, itr[k:k + 1], json.dumps(iout)[:300], mtr[k:k + 1], mout,
                    (py[i]["out"], py[i]["tr"][k:k + 1]) if py else None))
-        failures.append({"key": "diff:%s" % ("transcript" if itr != mtr else "outcome"), "what": what,
+        if e["id"].startswith("corpus:"):
+            key = e["id"] + ":" + e["variant"]
+        elif "err" in iout and "ok" in mout:
+            key = "diff:impl-error:" + re.sub(r"`[^`]*`|\d+", "_", iout["err"]["msg"].splitlines()[0])[:80]
+        elif "ok" in iout and "err" in mout:
+            key = "diff:impl-succeeds-reference-fails:%s" % mout["err"]["kind"]
+        else:
+            key = "diff:%s" % ("transcript" if itr != mtr else "outcome")
+        failures.append({"key": key, "what": what,
                          "replay": {"src": e["src"], "coq": e["coq"], "impl": step, "model": [mtr, mout], "python": py[i] if py else None}})
     return failures, st
 
@@ -214,10 +232,28 @@ def gen_entries(ctx, n, **kw):
     return entries, agg
 
 
+def corpus_entries():
+    import importlib.util
+    p = os.path.join(sv.ROOT, "corpus", "C01", "cases.py")
+    if not os.path.exists(p):
+        return []
+    spec = importlib.util.spec_from_file_location("c01_corpus", p)
+    m = importlib.util.module_from_spec(spec)
+    spec.loader.exec_module(m)
+    out = []
+    for name, prog in m.CASES:
+        for variant, pr in (("module", prog), ("in-function", progs.wrap_in_function(prog))):
+            src, n = progs.source_of(pr)
+            out.append({"id": "corpus:" + name, "variant": variant, "src": src, "coq": progs.coq_block(n)})
+    return out
+
+
 def correspond(ctx):
     n = ctx.n(250, 5000)
     entries, agg = gen_entries(ctx, n, max_stmts=ctx.rng.choice([14, 20, 26]), max_depth=4, p_fail=0.3)
-    corpus = sorted(os.listdir(os.path.join(sv.ROOT, "corpus", "C01"))) if os.path.isdir(os.path.join(sv.ROOT, "corpus", "C01")) else []
+    corpus = corpus_entries()
+    entries = corpus + entries
+    corpus = sorted({e["id"] for e in corpus})
     failures, st = compare(ctx, entries)
     soft = [f for f in failures if f.get("soft")]
     hard = [f for f in failures if not f.get("soft")]
